@@ -3,6 +3,7 @@ CONSTANTS
   MaxIn = 4
   ExtraCalls = 2
   DevUnderflowPanics = FALSE
+  DevBackrefInvalidUtf8 = FALSE
 SPECIFICATION Spec
 INVARIANTS StackNonEmpty NoPanic PositionExact TokensWellFormed FinishesWithinInput EofOnlyAtEnd
 PROPERTIES EofStutters Progress
